@@ -456,9 +456,6 @@ def ht_parts(a):
     return a[1:i], a[i + 1:j], a[j + 1:]
 
 
-HT_NOTES = {}
-
-
 def ht_oracle(case, obs):
     """C13's statement on the implementation's answers alone: the relation declared by the texts decides supertypes and
        subtypes of every prepared item; an item's selection range selects its own name in the file it points to"""
@@ -568,15 +565,9 @@ def ht_oracle(case, obs):
             if not (isinstance(prep, list) and len(prep) == 1):
                 continue
             it = prep[0]
-            if it[0] == "c" and it[1].upper() not in info["root"]:
-                # a reference to a class declared in ANOTHER file (a type annotation, an inherited name): the code makes the
-                # CLASS item with the uri of the requesting document and the ranges of the declaring one (reported as a
-                # finding; C13's text speaks of the relation, which is decided by the item's name alone)
-                HT_NOTES["class_item_of_other_file_with_requesting_uri"] = HT_NOTES.get("class_item_of_other_file_with_requesting_uri", 0) + 1
-            else:
-                r = sel_ok(it)
-                if r:
-                    return "%s: prepared %s" % (where, r)
+            r = sel_ok(it)
+            if r:
+                return "%s: prepared %s" % (where, r)
             for part, name in ((sup, "supertypes"), (sub, "subtypes")):
                 if not isinstance(part, list):
                     d = bystem.get(it[2].upper())
@@ -671,6 +662,21 @@ def ht_mutate(rng, files, how):
         ls.insert(hdr[0] + 1, "%s : int4" % rng.choice(NAMES + ["self", "SELF", st]))
     elif how == "decl_after_method" and meth:
         ls.append(rng.choice(["Late : int4", "const Foo = 2", "Fld : int4", "type Calc : int4"]))
+    elif how == "xref":
+        # a reference to an ANCESTOR class in a type annotation (found through the chain of parent tables), the
+        # declaring file's header below comment lines: the item must name the declaring file (6242e0e)
+        kids = [i for i, (s_, t_) in enumerate(files) if (HT_HEADER.match(t_.split("\n")[0]) or [None] * 4)[3]]
+        byname = dict((s_.upper(), i) for i, (s_, t_) in enumerate(files))
+        kids = [i for i in kids if HT_HEADER.match(files[i][1].split("\n")[0]).group(3).upper() in byname]
+        if kids:
+            k = rng.choice(kids)
+            st, tx = files[k]
+            ls = tx.split("\n")
+            par = HT_HEADER.match(ls[0]).group(3)
+            j = byname[par.upper()]
+            ls.insert(1, "RefUp : %s" % (par if rng.random() < 0.5 else fc.recase(par, rng)))
+            if j != k:
+                files[j][1] = "".join("; comment line %d\n" % n for n in range(rng.randrange(1, 4))) + files[j][1]
     elif how == "no_class":
         files.append(["aNoClass%d" % rng.randrange(9), "; no class in this file\nFld : int4\n\nproc Foo(p1 : int4)\n   ; body\nendproc\n"])
     elif how == "empty":
@@ -680,7 +686,7 @@ def ht_mutate(rng, files, how):
 
 
 HT_MUTS = ["late_header", "header_after_method", "const_first", "module", "two_headers", "const_member", "stem_mismatch",
-           "body", "no_class", "empty", "dup_member", "member_named_class", "decl_after_method"]
+           "body", "no_class", "empty", "dup_member", "member_named_class", "decl_after_method", "xref", "xref"]
 
 
 def ht_cases(ctx):
@@ -696,6 +702,11 @@ def ht_cases(ctx):
 
     scale = 1 if ctx.quick else 8
     base = []
+    # the regression of 6242e0e (C13_old_class_item_uri_refuted): the declaring class's header on line 2, a two-line
+    # referring file; before the repair the class item prepared on `aKa` in aKb.god named aKb.god with aKa.god's ranges
+    add("xref_fixed", [("aKa", "; c1\n; c2\nclass aKa\n\nFld : int4\n"), ("aKb", "class aKb (aKa)\nRef : aKa\n")])
+    add("xref_fixed", [("aKb", "class aKb (AKA)\nRef : akA\n"),
+                       ("aKa", "; c1\n; c2\n; c3\n; c4\n; c5\n   class aKa\n\nFld : int4\n")])
     for n in (1, 2, 3):
         fs = list(forests(n))
         for ps in (fs if len(fs) <= 30 else rng.sample(fs, 30 * scale if 30 * scale < len(fs) else len(fs))):
@@ -774,7 +785,6 @@ def ht_nontrivial(case):
 
 def hiertree_stage(ctx):
     cases, hist = ht_cases(ctx)
-    HT_NOTES.clear()
     cov = diff.differential(ctx, "hiertree", cases, split=ht_split, oracle=ht_oracle, canon=ht_canon,
                             shrinker=ht_shrinker, nontrivial=ht_nontrivial, describe=ht_describe)
     # how much the model answers itself (not Outside), how many items are prepared and walked
@@ -814,12 +824,12 @@ def hiertree_stage(ctx):
     cov["workspaces"] = len(cases)
     cov["input_histogram"] = hist
     cov["requests"] = st
-    cov["notes"] = dict(HT_NOTES)
     cov["rule"] = ("workspaces of c13's own generators (every forest on 1-2 classes, samples of those on 3-6; parent references, "
                    "stems and member names re-cased, parents without a file, members Foo / Fld / Calc overridden at random) as "
                    "documents (stem + text); the same with one document made irregular (header after the fields / after a method, a "
                    "constant in front of the header, module, second header, a constant or type named like a member, stem unlike "
-                   "the class name, references in a method body, a file without class, an empty file); /repo/test/workspace (top "
+                   "the class name, a field typed with an ancestor class whose header stands below comment lines (cross-file "
+                   "class item: its uri must name the declaring file), references in a method body, a file without class, an empty file); /repo/test/workspace (top "
                    "level, with TypeHierarchyTest/, reversed). Per workspace: every tree dumped, the class tree built as main_loop "
                    "does, prepareTypeHierarchy at start / middle / end of EVERY identifier token of every file, then supertypes and "
                    "subtypes of every prepared item, vs HierTree.prepare / supertypes_of / subtypes_of on the dumps (items = kind, "
